@@ -270,6 +270,7 @@ func c18run(w *report.W) {
 		mat  int    // key material index 0..2
 		id   string // "a","b","" (none)
 		good bool   // valid algorithm?
+		use  string // "use" member: absent, sig or enc (the documented rule does not look at it)
 	}
 	mats := make([]ed25519.PrivateKey, 3)
 	thumbs := make([]string, 3)
@@ -287,6 +288,21 @@ func c18run(w *report.W) {
 	}
 	var sets [][]member
 	sets = append(sets, nil)
+	// one- and two-key sets with a "use" member on the keys
+	for _, m1 := range memberChoices {
+		for _, u1 := range []string{"enc", "sig"} {
+			a := m1
+			a.use = u1
+			sets = append(sets, []member{a})
+			for _, m2 := range memberChoices {
+				for _, u2 := range []string{"", "enc"} {
+					b := m2
+					b.use = u2
+					sets = append(sets, []member{a, b}, []member{b, a})
+				}
+			}
+		}
+	}
 	for _, m1 := range memberChoices {
 		sets = append(sets, []member{m1})
 		for _, m2 := range memberChoices {
@@ -313,12 +329,19 @@ func c18run(w *report.W) {
 			if set[i].id != "" {
 				k.Set(jwk.KeyIDKey, set[i].id)
 			}
+			if set[i].use != "" {
+				k.Set(jwk.KeyUsageKey, set[i].use)
+			}
 			if set[i].good {
 				k.Set(jwk.AlgorithmKey, jwa.EdDSA)
 			} else if i%2 == 0 {
 				k.Set(jwk.AlgorithmKey, jwa.HS512)
 			} // else: missing alg
 			jw.AddKey(k)
+			if set[i].use != "" {
+				descr = append(descr, fmt.Sprintf("{id:%q valid:%v use:%s}", set[i].id, set[i].good, set[i].use))
+				continue
+			}
 			descr = append(descr, fmt.Sprintf("{id:%q valid:%v}", set[i].id, set[i].good))
 		}
 		b, _ := json.Marshal(jw)
@@ -416,6 +439,45 @@ func c18run(w *report.W) {
 		}
 		prevBytes = b
 	}
+	// large key-set files (16 .. 2048 keys, up to ~400 kB): the first, a middle and the last key load by id, an absent id does not
+	{
+		_, priv, _ := ed25519.GenerateKey(rand.Reader)
+		for _, n := range []int{16, 100, 300, 600, 2048} {
+			cs := fmt.Sprintf("LoadKey from a set of %d keys", n)
+			if !w.Take(cs) {
+				continue
+			}
+			jw := jwk.NewSet()
+			for i := 0; i < n; i++ {
+				k, _ := jwk.FromRaw(priv)
+				k.Set(jwk.KeyIDKey, fmt.Sprintf("key-%04d", i))
+				k.Set(jwk.AlgorithmKey, jwa.EdDSA)
+				k.Set("note", strings.Repeat("x", 40))
+				jw.AddKey(k)
+			}
+			b, _ := json.Marshal(jw)
+			path := filepath.Join(dir, fmt.Sprintf("big%d.json", n))
+			os.WriteFile(path, b, 0o600)
+			for _, id := range []string{"key-0000", fmt.Sprintf("key-%04d", n/2), fmt.Sprintf("key-%04d", n-1), "key-absent"} {
+				w.P.Evaluations++
+				w.P.Nontrivial++
+				var key jwk.Key
+				var lerr error
+				if pan := report.Catch(func() { key, lerr = jwkutil.LoadKey(path, id) }); pan != "" {
+					w.Violate(report.Violation{Kind: "panic", Case: cs + " id " + id, Detail: pan, Size: 4})
+					continue
+				}
+				if id == "key-absent" {
+					if lerr == nil {
+						w.Violate(report.Violation{Kind: "loadkey", Case: cs + " id " + id, Detail: "an absent id returned a key", Size: 4})
+					}
+				} else if lerr != nil || key == nil || key.KeyID() != id {
+					w.Violate(report.Violation{Kind: "loadkey", Case: fmt.Sprintf("%s (%d bytes) id %s", cs, len(b), id), Detail: fmt.Sprintf("err=%v", lerr), Size: 4})
+				}
+			}
+			os.Remove(path)
+		}
+	}
 	// missing / malformed files
 	for _, c := range []struct{ name, content string }{{"missing", ""}, {"garbage", "not json"}, {"emptyobj", "{}"}} {
 		cs := "LoadKey file=" + c.name
@@ -444,7 +506,7 @@ func init() {
 		Rule: "finite tables fully enumerated: 12 key forms (RSA-2048, EC P-256/384/521, Ed25519 private+public, two oct sizes) x every algorithm name the JOSE " +
 			"library registers (signature, key-encryption, content-encryption) plus none/unknown/empty/case and padding variants/missing, set programmatically and through " +
 			"JSON parsing; generated pairs (2 per approved algorithm) validate and the 6x6 sign/verify matrix x 3 payloads accepts exactly the diagonal; key-set files: " +
-			"every list of <=3 keys over ids {a,b,none} x valid/invalid algorithm x requested id in {\"\",a,b,c} x the history on that path (no earlier load, an earlier load with each requested id, an earlier load while the path held another key set). Non-trivial = rows the rule accepts, " +
+			"every list of <=3 keys over ids {a,b,none} x valid/invalid algorithm (and, for lists of <=2, a `use` member sig / enc, which the rule ignores) x requested id in {\"\",a,b,c} x the history on that path (no earlier load, an earlier load with each requested id, an earlier load while the path held another key set); key sets of 16..2048 keys (up to ~400 kB): first / middle / last / absent id. Non-trivial = rows the rule accepts, " +
 			"sign/verify pairs and key-set cases.",
 		Assumptions: []string{
 			"jwx key generation/signing is a black box that verifies exactly what it signed",
